@@ -1345,8 +1345,17 @@ cmd_stream(void) {
       vs_push(vs, NULL, NULL, b, len);
     free(b);
   }
-  vs->sock->flags |= COAP_SOCKET_CAN_READ;
-  do_io(vs->node);
+  /* like select(): the socket stays readable while bytes are pending */
+  {
+    int conn = atoi(tok[1]), side = atoi(tok[2]), guard = 0;
+    long before;
+    do {
+      before = vs->reads;
+      vs->sock->flags |= COAP_SOCKET_CAN_READ;
+      do_io(vs->node);
+      vs = conn_sock(conn, side);
+    } while (vs && vs->q && vs->reads != before && ++guard < 100000);
+  }
 }
 
 static void
